@@ -148,9 +148,16 @@ func genC15(c *Ctx, r *rng.R, i int) {
 		c15Docs(c, r)
 		return
 	}
-	t := gt.Gen(r, gt.Cfg{Depth: 3, DynPct: 0, OptPct: 0, CapPct: 0, MaxWidth: 3})
+	tcfg := gt.Cfg{Depth: 3, DynPct: 0, OptPct: 0, CapPct: 0, MaxWidth: 3}
 	cfg := gv.KnownCfg
 	cfg.NullPct = 10
+	if i%7 == 3 {
+		// the value's own type keeps placeholders below the top (untyped nulls inside tuples and objects,
+		// empty collections of the placeholder): still a wholly known value
+		tcfg.DynPct = 20
+		cfg.NullPct = 25
+	}
+	t := gt.Gen(r, tcfg)
 	v := gv.Gen(r, t, cfg, 3)
 	kind := "known"
 	switch r.Intn(12) {
@@ -189,7 +196,35 @@ func genC15(c *Ctx, r *rng.R, i int) {
 	if r.Chance(60) {
 		con = gt.Generalize(r, con)
 	}
+	if i%7 == 3 && !v.Type().HasDynamicTypes() {
+		switch r.Intn(4) {
+		case 0:
+			v = cty.TupleVal([]cty.Value{v, cty.NullVal(cty.DynamicPseudoType)})
+		case 1:
+			v = cty.ObjectVal(map[string]cty.Value{"x": v, "y": cty.NullVal(cty.DynamicPseudoType)})
+		case 2:
+			v = cty.TupleVal([]cty.Value{cty.ListValEmpty(cty.DynamicPseudoType), v})
+		default:
+			v = cty.ObjectVal(map[string]cty.Value{"m": cty.MapValEmpty(cty.DynamicPseudoType), "s": cty.SetValEmpty(cty.Tuple([]cty.Type{cty.DynamicPseudoType})), "v": v})
+		}
+		con = gt.FromCtyOrNil(v.Type())
+		if con == nil {
+			return
+		}
+	}
+	if v.Type().HasDynamicTypes() && v.Type() != cty.DynamicPseudoType && r.Chance(50) {
+		// the whole value below a placeholder: its type, placeholders included, travels in the wrapper
+		if r.Bool() {
+			con = gt.P(gt.Dyn)
+		} else {
+			v = cty.TupleVal([]cty.Value{cty.True, v})
+			con = &gt.T{K: gt.Tuple, Elems: []*gt.T{gt.P(gt.Bool), gt.P(gt.Dyn)}}
+		}
+	}
 	conTy := con.Build()
+	if v.Type().HasDynamicTypes() {
+		c.Count("value_type_has_placeholder")
+	}
 	if len(v.Type().TestConformance(conTy)) != 0 {
 		c.Count("skipped_nonconforming")
 		return
